@@ -645,3 +645,26 @@ func FreeRuns() int {
 	_, _ = fmt.Sscanf(os.Getenv("VERIF_FREERUN"), "%d", &n)
 	return n
 }
+
+// FreePass is the race-detector pass for one scenario: FreeRuns() free-running executions of the scenario's thread
+// bodies (fresh scenario each time). It reports true when the pass is active, in which case the caller skips the
+// controlled exploration. add is the report's counter function.
+func FreePass(add func(string, int64), build func() Scenario) bool {
+	n := FreeRuns()
+	if n == 0 {
+		return false
+	}
+	for k := 0; k < n; k++ {
+		if v := FreeRun(build()); len(v) > 0 {
+			add("free_run_oracle_violations_not_replayable", 1)
+			for fp := range v {
+				add("free_run_oracle/"+fp, 1)
+			}
+		}
+		add("free_running_executions", 1)
+		add("evaluations", 1)
+	}
+	add("scenarios", 1)
+	add("distinct_nontrivial", 1)
+	return true
+}
